@@ -1,5 +1,6 @@
 import PonyVerif.Drive.Util
 import PonyVerif.Model.SaveOrder
+import PonyVerif.Model.DeleteQueue
 namespace PonyVerif.Drive.C16
 open Lean PonyVerif.Drive PonyVerif.Model.SaveOrder
 
@@ -58,6 +59,82 @@ def jsonOfErr : Err → Json
   | .badStatus x => Json.mkObj [("error", "AssertionError"), ("obj", jNat x)]
   | .outOfFuel => Json.mkObj [("error", "outOfFuel")]
 
+/-! JSON for the delete-queue model (same wire format as the C15 driver: schema sides, objects with refs / colls) -/
+section DelQ
+open PonyVerif.Model.Cascade PonyVerif.Model.DeleteQueue
+
+def sideOfJson (j : Json) : Except String Side := do
+  pure { ent := ← j.getObjValAs? Nat "ent", isColl := ← j.getObjValAs? Bool "coll",
+         required := ← j.getObjValAs? Bool "req", cascade := ← j.getObjValAs? Bool "casc",
+         hasCol := ← j.getObjValAs? Bool "col" }
+
+def relOfJson (j : Json) : Except String RelDecl := do
+  pure { a := ← sideOfJson (← j.getObjVal? "a"), b := ← sideOfJson (← j.getObjVal? "b"), sym := false }
+
+def attrOfJson (rel sd : Json) : Except String Attr := do
+  pure { rel := ← fromJson? rel, side := ← fromJson? sd }
+
+structure ObjJ where
+  ent : Nat
+  alive : Bool
+  refs : List (Attr × Option Nat)
+  colls : List (Attr × List Nat)
+
+def objOfJson (j : Json) : Except String ObjJ := do
+  let refs ← (← argArr j "refs").mapM fun r => do
+    match r with
+    | .arr #[rel, sd, v] => pure (← attrOfJson rel sd, ← optNat v)
+    | _ => throw "refs: [rel, side, v] expected"
+  let colls ← (← argArr j "colls").mapM fun r => do
+    match r with
+    | .arr #[rel, sd, l] => pure (← attrOfJson rel sd, ← listOf natOf l)
+    | _ => throw "colls: [rel, side, [ids]] expected"
+  pure { ent := ← j.getObjValAs? Nat "ent", alive := ← j.getObjValAs? Bool "alive", refs, colls }
+
+def storeOf (objs : List ObjJ) : Store :=
+  let arr := objs.toArray
+  { n := arr.size
+    ent := fun o => match arr[o]? with | some x => x.ent | none => 0
+    alive := fun o => match arr[o]? with | some x => x.alive | none => false
+    ref := fun o a => match arr[o]? with
+      | some x => match x.refs.find? (fun p => p.1 == a) with
+        | some (_, v) => v
+        | none => none
+      | none => none
+    mem := fun o a q => match arr[o]? with
+      | some x => match x.colls.find? (fun p => p.1 == a) with
+        | some (_, l) => l.contains q
+        | none => false
+      | none => false }
+
+def errNameD : PonyVerif.Model.Cascade.Err → String
+  | .constraintError => "ConstraintError" | .recursionError => "RecursionError" | .assertionError => "AssertionError"
+  | .objectDeleted => "OperationWithDeletedObjectError" | .valueError => "ValueError"
+  | .noSuchAttr => "noSuchAttr" | .noSuchObject => "noSuchObject"
+
+/-- {"op":"delq","schema":[..],"classes":[[[rel,side],..] per entity],"objs":[..],"deletes":[id,..]}
+    -> {"order":[ids in death order],"errs":[null|name per delete],"alive":[bool per object],
+        "pony_ddl_accepts":bool,"strict_accepts":bool}  (DELETEs in death order against the committed image of objs) -/
+def handleDelQ (j : Json) : Except String Json := do
+  let sch : Schema ← (← argArr j "schema").mapM relOfJson
+  let classes ← (← argArr j "classes").mapM (fun c => do
+    (← listOf pure c).mapM (fun a => match a with
+      | .arr #[rel, sd] => attrOfJson rel sd
+      | _ => throw "classes: [rel, side] expected"))
+  let carr := classes.toArray
+  let ct : ClassTable := fun e => match carr[e]? with | some l => l | none => []
+  let objs ← (← argArr j "objs").mapM objOfJson
+  let dels ← listOf natOf (← j.getObjVal? "deletes")
+  let s := storeOf objs
+  let (q, errs) := deleteAllQ sch ct false dels ⟨s, []⟩
+  let db := commit sch s
+  pure (Json.mkObj [("order", .arr (q.order.map jNat).toArray),
+                    ("errs", .arr (errs.map (fun e => match e with | none => Json.null | some e => Json.str (errNameD e))).toArray),
+                    ("alive", .arr ((List.range s.n).map (fun o => Json.bool (q.store.alive o))).toArray),
+                    ("pony_ddl_accepts", .bool (execDeletes sch db q.order).isSome),
+                    ("strict_accepts", .bool (execDeletesStrict sch db q.order).isSome)])
+end DelQ
+
 def handle (j : Json) : Except String Json := do
   let op ← argStr j "op"
   match op with
@@ -99,6 +176,7 @@ def handle (j : Json) : Except String Json := do
       let c' := if mode == "flush" then flushConn true c ws else execAll c ws
       pure (Json.mkObj [("inTxn", .bool c'.inTxn), ("immediate", .bool c'.immediate), ("begin", .bool (!c.inTxn && c'.inTxn)),
                         ("autocommitted", jNat c'.committed.length), ("pending", jNat c'.pending.length)])
+  | "delq" => handleDelQ j
   | "accepts" =>
       -- run a statement list against the immediate-FK database model
       let refs ← listOf (listOf refOf) (← j.getObjVal? "refs")
